@@ -2196,7 +2196,12 @@ void Analyser::AnalyserImpl::analyseEquationUnits(const AnalyserEquationAstPtr &
                                    + expressionUnits(ast->mPimpl->mOwnedLeftChild, unitsMaps, userUnitsMaps, unitsMultipliers) + " while "
                                    + expressionUnits(ast->mPimpl->mOwnedRightChild, rightUnitsMaps, rightUserUnitsMaps, rightUnitsMultipliers) + ".";
             }
-        } else if (!isDimensionlessUnitsMaps(unitsMaps)) {
+        } else if (!isDimensionlessUnitsMaps(unitsMaps)
+                   && (ast->mPimpl->mOwnedRightChild != nullptr)
+                   && (ast->mPimpl->mOwnedRightChild->mPimpl->mOwnedRightChild != nullptr)) {
+            // Note: the power data may stem from a power seen earlier in the equation, in which case this node (e.g., a
+            //       unary minus) need not have a right child that has a right child.
+
             issueDescription = "The units in " + expression(ast) + " may not be equivalent. "
                                + expressionUnits(ast->mPimpl->mOwnedLeftChild, unitsMaps, userUnitsMaps, unitsMultipliers) + " while "
                                + expression(ast->mPimpl->mOwnedRightChild->mPimpl->mOwnedRightChild, false) + " may result in " + expression(ast->mPimpl->mOwnedRightChild, false) + " having different units.";
